@@ -106,6 +106,7 @@ void chk_run_case(uint64_t seed, long c, bool is_sweep)
                 if (g == ng - 1) { struct cat_command *h = &arr[per[g]]; h->name = xstr("#H"); h->run = h_run; strcpy(names[k], "#H"); k++; }
         }
         ncmd = k;
+        if (chance(25)) w_noise_group(30 + rn(100));
         size_t cap = w_min_cap() + 40 + rn(40); bool shared = chance(50);
         w_buffers(shared ? cap * 2 : cap, shared, 32);
         w_init((int)rn(2));
